@@ -817,7 +817,7 @@ func classify(c Case) (bool, []string) {
 			switch {
 			case d > 0x80000000 && prev-m.Ts > 1000:
 				labels = append(labels, "ts-jump:backward")
-			case d >= 60000:
+			case d >= 60000 && d <= 0x80000000:
 				labels = append(labels, "ts-jump:forward>=60s")
 			}
 		}
